@@ -166,6 +166,9 @@ class MarketRun:
         self.compare("cancel")
         if self.case["continuous"] and self.M.running:
             self.round(continuous=False, incoming=None)
+        if self.case.get("peel_after_cancel") and was_resting:
+            # removal from the middle of the book: do the quotes still follow the ranking as the best orders leave?
+            self.op_peel(mo.is_buy, 3)
         if self.case.get("drain_after_cancel") and was_resting:
             # removal from the middle of the book: sweep the whole side on a copy and check the fill sequence
             self.op_drain(mo.is_buy, 1.0)
@@ -437,6 +440,33 @@ class MarketRun:
                     break
                 lim.append(o.price)
 
+    # -- peel probe: cancel the best order of one side a few times on a copy of the market
+    def op_peel(self, side_is_buy: bool, k: int) -> None:
+        """copy the real market, the model and the order handles together, then cancel the current best order of one side k
+        times in a row, comparing quotes / depth / best order with the model after each removal.  The history is unaffected."""
+        if not ({"C02", "C08"} & self.oracles) or len(self.M.book[side_is_buy]) < 3:
+            return
+        m2, M2, live2 = copy.deepcopy((self.m, self.M, self.live))
+        sub = MarketRun.__new__(MarketRun)
+        sub.case = dict(self.case, continuous=False, drain_after_cancel=False, peel_after_cancel=False)
+        sub.oracles = self.oracles & {"C02", "C08"}
+        sub.tick, sub.p0 = self.tick, self.p0
+        sub.m, sub.M, sub.live = m2, M2, live2
+        sub.lg = m2.logger
+        sub.log_pos = len(sub.lg.rec)
+        sub.by_id = {}
+        sub.flags = self.flags
+        sub.n_rounds = 0
+        sub.last_round_logs = []
+        sub.hist = self.hist + [["peel-probe", side_is_buy, k]]
+        self.flag("peel_probe")
+        for _ in range(k):
+            best = M2.best(side_is_buy)
+            if best is None:
+                break
+            idx = next(i for i, (_, mo) in enumerate(live2) if mo is best)
+            sub.op_cancel(idx)
+
     # -- state comparison after every operation
     def reconcile(self) -> None:
         """C01-C03 speak about the orders that ARE in the book; which orders those are (lifetime, cancellation, accounting) is
@@ -650,6 +680,7 @@ def market_cases(draw, max_ops: int = 60, market_frac: int = 2, illegal: bool = 
     case = {"tick": tick, "p0": p0, "continuous": continuous, "running0": running0, "ops": [list(o) for o in ops]}
     if deep:
         case["drain_after_cancel"] = True
+        case["peel_after_cancel"] = True
     if pre_ticks:
         # start the history shortly before one of the 100-step storage chunks ends
         case["pre_ticks"] = draw(st.sampled_from([0, 0, 0, 97, 98, 99, 198, 199]))
